@@ -152,31 +152,21 @@ Proof.
   - apply string_leb_trans.
 Qed.
 
-(* the guard of the second finding: the (pascal-cased) mixin names have pairwise different isort keys *)
-Definition g_c10_imports (mixins : list string) : Prop := NoDup (map isort_key (map pascal_s mixins)).
-
-Theorem op_import_names_partial c1 c2 mixins :
-  g_c10_imports mixins -> op_import_names false c1 mixins = op_import_names false c2 mixins.
+(* the names of `from .fragments import ...` never depend on the oracle: the set is sorted before isort sees it *)
+Theorem op_import_names_independent c1 c2 mixins : op_import_names c1 mixins = op_import_names c2 mixins.
 Proof.
-  intro G. unfold op_import_names. apply isort_names_perm_invariant.
+  unfold op_import_names. do 2 f_equal. apply str_sort_perm_invariant, permute_two_codes.
+Qed.
+
+(* (what made the sort necessary: isort alone is canonical only when the keys are distinct) *)
+Theorem op_import_names_unsorted_distinct_keys c1 c2 mixins :
+  NoDup (map isort_key (map pascal_s mixins)) ->
+  op_import_names_unsorted c1 mixins = op_import_names_unsorted c2 mixins.
+Proof.
+  intro G. unfold op_import_names_unsorted. apply isort_names_perm_invariant.
   - eapply Permutation_NoDup; [|exact G].
     apply Permutation_map, Permutation_map, Permutation_sym, permute_perm.
   - apply Permutation_map, permute_two_codes.
-Qed.
-
-Theorem op_import_names_refuted : exists c1 c2 mixins,
-  NoDup mixins /\ op_import_names false c1 mixins <> op_import_names false c2 mixins.
-Proof.
-  exists [], [1], ["FooBar"; "Foobar"]. split.
-  - repeat constructor; simpl; intuition discriminate.
-  - vm_compute. discriminate.
-Qed.
-
-(* with the proposed fix (iterate sorted(...)) the names never depend on the oracle *)
-Theorem op_import_names_fixed_independent c1 c2 mixins :
-  op_import_names true c1 mixins = op_import_names true c2 mixins.
-Proof.
-  unfold op_import_names. do 2 f_equal. apply str_sort_perm_invariant, permute_two_codes.
 Qed.
 
 (* ------------------------------------------------------------------ the fragments module *)
@@ -219,55 +209,24 @@ Lemma names_sorted_independent (o1 o2 : orc) l :
   str_sort (permute (o1 "<names>") l) = str_sort (permute (o2 "<names>") l).
 Proof. apply str_sort_perm_invariant, permute_two_codes. Qed.
 
-Lemma frag_module_order_by_deps sd o1 o2 fi :
-  (forall n, dfs_deps sd o1 fi n = dfs_deps sd o2 fi n) ->
-  frag_module_order sd o1 fi = frag_module_order sd o2 fi.
+Lemma frag_module_order_by_deps deps o1 o2 fi :
+  (forall n, deps o1 fi n = deps o2 fi n) ->
+  frag_module_order_with deps o1 fi = frag_module_order_with deps o2 fi.
 Proof.
-  intro E. unfold frag_module_order.
+  intro E. unfold frag_module_order_with.
   rewrite (names_sorted_independent o1 o2). rewrite (work_independent _ o1 o2).
   destruct (work _ o2 fi _ _ _) as [[names processed]|]; auto.
   rewrite (names_sorted_independent o1 o2). rewrite (dfs_all_ext _ _ _ _ E). reflexivity.
 Qed.
 
-(* with dependencies iterated in sorted order the whole module order is oracle-independent *)
-Theorem toposort_oracle_independent o1 o2 fi :
-  frag_module_order true o1 fi = frag_module_order true o2 fi.
+(* the whole module order (generation order and class order) is oracle-independent *)
+Theorem toposort_oracle_independent o1 o2 fi : frag_module_order o1 fi = frag_module_order o2 fi.
 Proof. apply frag_module_order_by_deps. intro n. apply deps_sorted_independent. Qed.
-
-Lemma assoc_s_In {V} k (al : list (string * V)) v : assoc_s k al = Some v -> In (k, v) al.
-Proof.
-  induction al as [|[k' v'] r IH]; simpl; [discriminate|].
-  destruct (String.eqb k k') eqn:E.
-  - intro H. inversion H; subst. apply String.eqb_eq in E. subst. left; reflexivity.
-  - intro H. right. apply IH; exact H.
-Qed.
-
-Lemma g_c10_dfs_short fi n : g_c10_dfs fi = true -> List.length (mix_of fi n) <= 1.
-Proof.
-  unfold g_c10_dfs, mix_of. intro G. destruct (assoc_s n (fi_mix fi)) eqn:E; simpl; [|lia].
-  apply assoc_s_In in E. rewrite forallb_forall in G. specialize (G _ E). simpl in G.
-  apply Nat.leb_le in G. exact G.
-Qed.
-
-(* the code as it is, outside the defect class: no fragment has two mixin dependencies *)
-Theorem toposort_unsorted_partial o1 o2 fi : g_c10_dfs fi = true ->
-  frag_module_order false o1 fi = frag_module_order false o2 fi.
-Proof.
-  intro G. apply frag_module_order_by_deps. intro n. unfold dfs_deps, deps_iter.
-  rewrite !permute_short by (apply g_c10_dfs_short; exact G). reflexivity.
-Qed.
 
 Definition fi_f12 : finput :=
   {| fi_defs := ["FragA"; "FragB"; "FragC"];
      fi_mix := [("FragA", ["FragB"; "FragC"]); ("FragB", []); ("FragC", [])];
      fi_excl := [] |}.
-
-Theorem toposort_refuted : exists o1 o2 fi,
-  frag_module_order false o1 fi <> frag_module_order false o2 fi /\
-  frag_module_order false o1 fi <> None /\ frag_module_order false o2 fi <> None.
-Proof.
-  exists orc_id, (orc_of [("FragA", [1])]), fi_f12. vm_compute. repeat split; discriminate.
-Qed.
 
 (* whatever the oracle, the ORDER OF GENERATION (imports, public names, used enums) is the same: the
    worklist sorts; only the class order of the module is exposed *)
@@ -406,50 +365,22 @@ Proof.
 Qed.
 
 (* ------------------------------------------------------------------ interpreter-global state *)
-(* a generation without the plugin never changes the shared nodes *)
-Theorem gen_plain_keeps_state copy wanted st : snd (gen_client_imports copy false wanted st) = st.
-Proof. reflexivity. Qed.
+Theorem gen_keeps_state plugin wanted st : snd (gen_client_imports plugin wanted st) = st.
+Proof.
+  unfold gen_client_imports. destruct plugin; [|reflexivity].
+  destruct (reduced_imports wanted st). reflexivity.
+Qed.
 
-(* with the fix no generation does *)
-Theorem gen_fixed_keeps_state plugin wanted st : snd (gen_client_imports true plugin wanted st) = st.
-Proof. unfold gen_client_imports. destruct plugin; reflexivity. Qed.
-
-Lemma run_history_fixed hist : forall st, run_history true hist st = st.
+Lemma run_history_id hist : forall st, run_history hist st = st.
 Proof.
   unfold run_history. induction hist as [|h r IH]; intro st; simpl; auto.
-  rewrite gen_fixed_keeps_state. apply IH.
+  rewrite gen_keeps_state. apply IH.
 Qed.
 
-(* with the fix, what a generation emits does not depend on what the interpreter generated before *)
-Theorem gen_fixed_history_independent hist plugin wanted st :
-  fst (gen_client_imports true plugin wanted (run_history true hist st)) =
-  fst (gen_client_imports true plugin wanted st).
-Proof. rewrite run_history_fixed. reflexivity. Qed.
-
-Lemma run_history_plain copy hist : forall st,
-  forallb (fun h => negb (fst h)) hist = true -> run_history copy hist st = st.
-Proof.
-  unfold run_history. induction hist as [|[p w] r IH]; intros st H; simpl in *; auto.
-  apply andb_true_iff in H. destruct H as [Hp Hr]. destruct p; [discriminate|]. simpl. apply IH; exact Hr.
-Qed.
-
-(* the code as it is: history-independent as long as no earlier generation used the plugin *)
-Theorem gen_history_partial hist plugin wanted st :
-  forallb (fun h => negb (fst h)) hist = true ->
-  fst (gen_client_imports false plugin wanted (run_history false hist st)) =
-  fst (gen_client_imports false plugin wanted st).
-Proof. intro H. rewrite run_history_plain by exact H. reflexivity. Qed.
-
-(* ... and refuted otherwise: a plain generation after a plugin one, and the plugin one repeated *)
-Theorem gen_history_refuted : exists hist plugin wanted st,
-  fst (gen_client_imports false plugin wanted (run_history false hist st)) <>
-  fst (gen_client_imports false plugin wanted st).
-Proof. exists [(true, ["UnsetType"])], false, [], st_initial. vm_compute. discriminate. Qed.
-
-Theorem gen_twice_with_plugin_refuted : exists wanted st,
-  fst (gen_client_imports false true wanted (snd (gen_client_imports false true wanted st))) <>
-  fst (gen_client_imports false true wanted st).
-Proof. exists ["UnsetType"], st_initial. vm_compute. discriminate. Qed.
+(* what a generation emits does not depend on what the interpreter generated before *)
+Theorem gen_history_independent hist plugin wanted st :
+  fst (gen_client_imports plugin wanted (run_history hist st)) = fst (gen_client_imports plugin wanted st).
+Proof. rewrite run_history_id. reflexivity. Qed.
 
 (* ------------------------------------------------------------------ the site table *)
 Theorem observe_independent k : order_sensitive k = false ->
@@ -477,15 +408,18 @@ Proof.
   - apply permute_two_codes.
 Qed.
 
-Theorem emission_oracle_independent : forall s, In s site_table -> order_sensitive (s_sink s) = false ->
+Lemma site_table_order_free : forallb (fun s => negb (order_sensitive (s_sink s))) site_table = true.
+Proof. vm_compute. reflexivity. Qed.
+
+(* EVERY row of the table: what reaches the emitted text does not depend on the iteration order *)
+Theorem emission_oracle_independent : forall s, In s site_table ->
   forall l c1 c2 probe, observe (s_sink s) (permute c1 l) probe = observe (s_sink s) (permute c2 l) probe.
-Proof. intros s _ H. apply observe_independent. exact H. Qed.
+Proof.
+  intros s Hin. apply observe_independent.
+  pose proof site_table_order_free as H. rewrite forallb_forall in H.
+  specialize (H s Hin). destruct (order_sensitive (s_sink s)); [discriminate | reflexivity].
+Qed.
 
-Theorem emission_refuted : forall s, In s site_table -> order_sensitive (s_sink s) = true ->
-  exists l c1 c2 probe, NoDup l /\
-    observe (s_sink s) (permute c1 l) probe <> observe (s_sink s) (permute c2 l) probe.
-Proof. intros s _ H. apply observe_refuted. exact H. Qed.
-
-(* which rows of the table are order-sensitive: exactly the two findings and the plugin import sites *)
+(* the rows whose sink would be order-sensitive: none *)
 Definition sensitive_sites : list (string * string * string) :=
   map (fun s => (s_file s, s_fn s, s_expr s)) (filter (fun s => order_sensitive (s_sink s)) site_table).
